@@ -31,7 +31,7 @@ import z3
 from . import frontend
 from . import interp as I
 from . import axioms
-from .values import (SV, SInt, SReal, SBool, SStr, SBits, SAny, SChoice, SSeq,
+from .values import (SOptInt, SV, SInt, SReal, SBool, SStr, SBits, SAny, SChoice, SSeq,
                      SObj, SDict, Closure, ExcVal, fresh_name, lift,
                      simplify_concrete, reset_names)
 
@@ -92,6 +92,12 @@ class Builder:
 
   def opt_int(self, name):
     return self.opt(name, self.int)
+
+  def optint(self, name):
+    """Optional int without forking (SOptInt)."""
+    z = self._reg(name, z3.Int(name))
+    p = self._reg(name + '?', z3.Bool(name + '?'))
+    return SOptInt(z, p)
 
   def opt_num(self, name, sort):
     return self.opt(name, lambda n: self.num(n, sort))
@@ -441,8 +447,7 @@ def as_callee(c):
     # exceptional behaviours
     for cname, fn in c.clauses('exc_iff_'):
       cond = interp.truth_z(call_clause(interp, fn, env))
-      if interp.path.branch(cond):
-        raise I.PyRaise(ExcVal(getattr(c, 'exc_class_' + cname), ()))
+      interp.path.raise_if(cond, ExcVal(getattr(c, 'exc_class_' + cname), ()))
     for ecls in getattr(c, 'may_raise', ()):
       if interp.path.decide(2, 'mayraise') == 1:
         raise I.PyRaise(ExcVal(ecls, ()))
@@ -479,6 +484,7 @@ def run_contract(contract, xcheck=True, goal_timeout_ms=8000):
   axioms.USED.clear()
 
   def body(path):
+    reset_names()
     reset_mark = len(ex.results)
     interp = I.Interp(path, policy)
     path.notes['current_contract'] = contract
